@@ -211,6 +211,13 @@ def fill_task(kind, kw, theory, n_ind=2, n_vis=2, pad=0):
             return A, B
 
         for c, res in st.explore(run, "R" if theory == "R" else "F"):
+            from leaspy.exceptions import LeaspyModelInputError
+
+            if isinstance(res, LeaspyModelInputError):
+                # degenerate *parameters* (e.g. a metric that underflows to 0 in float32): refused by the model itself, independent of the data fill
+                rec.notes.append(f"path with degenerate parameters refused by the model: {str(res)[:60]}")
+                rec.end_path(c)
+                continue
             if isinstance(res, Exception):
                 raise res
             A, B = res
